@@ -279,23 +279,27 @@ def applyMask : List α → List Bool → List α
 /-- `ExtractResult.end` = `start + length - 1` (−1 for an empty result at 0) -/
 def erEnd (e : ER) : Int := (e.start : Int) + (e.len : Int) - 1
 
+def prefixPassStep (acc : Int × List ER) (eb : ER × Bool) : Int × List ER :=
+  if acc.1 < (eb.1.start : Int) then (erEnd eb.1, acc.2 ++ [eb.1])
+  else if eb.2 then (erEnd eb.1, acc.2.dropLast ++ [eb.1])
+  else acc
+
 /-- first pass: left to right, a prefix unit replaces the result it collides with -/
 def prefixPass (cands : List (ER × Bool)) : List ER :=
-  (cands.foldl (fun (acc : Int × List ER) eb =>
-    if acc.1 < (eb.1.start : Int) then (erEnd eb.1, acc.2 ++ [eb.1])
-    else if eb.2 then (erEnd eb.1, acc.2.dropLast ++ [eb.1])
-    else acc) ((-1 : Int), [])).2
+  (cands.foldl prefixPassStep ((-1 : Int), [])).2
+
+def suffixPassStep (acc : Option (Int × List ER)) (eb : ER × Bool) : Option (Int × List ER) :=
+  match acc with
+  | none => none
+  | some (cur, res) =>
+    if cur ≥ erEnd eb.1 then some ((eb.1.start : Int), res ++ [eb.1])
+    else if !eb.2 then
+      (if res.isEmpty then none else some ((eb.1.start : Int), res.dropLast ++ [eb.1]))
+    else some (cur, res)
 
 /-- second pass: right to left, a suffix unit replaces the result it collides with; `none` = `pop` from an empty list -/
 def suffixPass (srcLen : Nat) (cands : List (ER × Bool)) : Option (List ER) :=
-  (cands.reverse.foldl (fun (acc : Option (Int × List ER)) eb =>
-    match acc with
-    | none => none
-    | some (cur, res) =>
-      if cur ≥ erEnd eb.1 then some ((eb.1.start : Int), res ++ [eb.1])
-      else if !eb.2 then
-        (if res.isEmpty then none else some ((eb.1.start : Int), res.dropLast ++ [eb.1]))
-      else some (cur, res)) (some ((srcLen : Int), []))).map (·.2)
+  (cands.reverse.foldl suffixPassStep (some ((srcLen : Int), []))).map (·.2)
 
 /-- `Token(start, start + len(unit_str))` of a prefix unit written without a blank, e.g. `$50` -/
 def noSpaceUnit (sp : Nat → Bool) (e : ER) : Option (Nat × Nat) :=
